@@ -2,6 +2,8 @@
 //! (`MutableTrie` driven through the guarded `verif_*` wrappers, `PersistentState` through its
 //! public API). Used by C03 (ordered-map behaviour, generations), C04 (hash canonicity,
 //! persistence) and C15 (iterator locks, handles).
+pub mod mstate;
+
 use concordium_smart_contract_engine::v1::trie::{
     low_level::verif::VerifIterator, EmptyCollector, EntryId, Loadable, Loader, MutableTrie, PersistentState, Reference,
     SizeCollector,
